@@ -123,7 +123,9 @@ def _job(args):
             for mp in mps:
                 glob = gen_patterns(rng, dirs, files)
                 rx = tuple(documented_glob_regex(p) for p in glob)      # the documented meaning, not the library's own converter
-                user_rx = rng.choice([(r"logging(\..*)?$",), (r"(os|xml)\b.*",), (r".*handlers$",), rx])
+                user_rx = rng.choice([(r"logging(\..*)?$",), (r"(os|xml)\b.*",), (r".*handlers$",), rx,
+                                      # several patterns, a later one with a numbered back reference / an inline flag in the first: each pattern is matched on its own
+                                      (r"(os|xml)\.path$", r"(\w+)\.\1(\.|$)", r"logging$"), (r"(?i)LOGGING\.handlers$", r"xml(\..*)?$"), (r"(x)(y)zzz", r"(\w)\w*\.\1.*")])
                 configs = [
                     ("exclude", dict(), False, ()),
                     ("include", dict(exclude_external_libraries=False), True, ()),
